@@ -1930,7 +1930,7 @@ def _pinv_stub(m, func, args, kwargs):
     for t_, v_ in zip(res, m.concrete_vals(out)):
         ctx.env[str(t_)] = v_
     ctx.stubs.add('linalg.pinv: contract stub (four Moore-Penrose equations; = inverse when square and det != 0)')
-    ctx.pinv_calls = getattr(ctx, 'pinv_calls', []) + [dict(kwargs, nargs=len(args), P=list(res), extra=list(args[1:]))]
+    ctx.pinv_calls = getattr(ctx, 'pinv_calls', []) + [dict(kwargs, nargs=len(args), P=list(res), A=list(ft), shape=(r, c), extra=list(args[1:]))]
     return out
 
 
